@@ -118,6 +118,12 @@ fn reply_for(kind: u8) -> Result<HttpResponse, FakeErr> {
         22 => response(408, Some(&b"application/json; charset=utf-8"[..]), br#"{"error":"authorization_pending"}"#),
         23 => response(429, j, br#"{"error":"slow_down"}"#),
         24 => response(504, j, br#"{"error":"slow_down","error_description":"busy"}"#),
+        // the two "keep polling" codes in exotic but conforming error documents: the CODE decides, nothing else in the reply does
+        25 => response(400, j, b"\r\n {\"error_description\":\"still waiting\",\"error\":\"authorization_pending\",\"x\":[1,{\"q\":null}],\"x\":2} \n"),
+        26 => response(400, j, br#"{"error":"slow_down","error_uri":"https://as.example/slow","interval":30,"expires_in":1}"#),
+        27 => response(400, None, br#"{"error":"authorization_pending"}"#),
+        28 => response(400, Some(&b"text/html"[..]), br#"{"error":"authorization_pending","error_description":"<b>wait</b>"}"#),
+        29 => response(400, j, br#"["slow_down","positional form"]"#),
         _ => unreachable!(),
     })
 }
@@ -375,8 +381,8 @@ fn noise_free_eq(a: &[u8], b: &[u8]) -> bool {
 /// 0 pending, 1 slow_down, 2 transport failure, 3 decisive
 fn cat(kind: u8) -> u8 {
     match kind {
-        0 | 20 | 21 | 22 => 0,
-        1 | 23 | 24 => 1,
+        0 | 20 | 21 | 22 | 25 | 27 | 28 => 0,
+        1 | 23 | 24 | 26 | 29 => 1,
         2 => 2,
         _ => 3,
     }
@@ -420,7 +426,7 @@ impl CaseInput for PollCase {
             };
         }
         let n = *r.pick(&[0u64, 1, 1, 2, 3, 4, 6, 9]);
-        let mut script: Vec<u8> = (0..n).map(|_| *r.pick(&[0u8, 0, 0, 1, 1, 1, 2, 2, 2, 20, 21, 22, 23, 24])).collect();
+        let mut script: Vec<u8> = (0..n).map(|_| *r.pick(&[0u8, 0, 0, 1, 1, 1, 2, 2, 2, 20, 21, 22, 23, 24, 25, 26, 27, 28, 29])).collect();
         script.push(*r.pick(&[3u8, 3, 3, 4, 5, 6, 7, 8, 9, 10, 11, 12, 13, 14, 15, 16]));
         let interval = match r.below(12) {
             0 => None,
